@@ -292,8 +292,14 @@ def regression_files(pid):
     return res
 
 
+def replay_dir(pid):
+    if os.path.realpath(REPO) != "/repo":
+        return os.path.join(build_dir(), "replays-scratch", pid)
+    return os.path.join(VERIF, "replays", pid)
+
+
 def save_replay(pid, unit_test, failure, case):
-    d = os.path.join(VERIF, "replays", pid)
+    d = replay_dir(pid)
     os.makedirs(d, exist_ok=True)
     body = {"property": pid, "unit": unit_test, "signature": failure.get("signature", ""),
             "message": failure.get("message", "")[:20000], "case": case}
@@ -606,7 +612,7 @@ def classify_crash(job):
 
 
 def save_text_replay(pid, job, what):
-    d = os.path.join(VERIF, "replays", pid)
+    d = replay_dir(pid)
     os.makedirs(d, exist_ok=True)
     path = os.path.join(d, "%s-shard%d-%d.log" % (job.unit["name"], job.shard, int(time.time())))
     with open(path, "w") as f:
